@@ -224,7 +224,7 @@ def check_impl_directly(case, r):
 
 
 def run(ctx):
-    ctx.obligations_stage(PROPS, extra_targets=['C02/Examples.vo'])
+    ctx.obligations_stage(PROPS, extra_targets=['C02/Examples.vo', 'C02/Model.vo'])
     ctx.assumptions += [
         'model: hand transcription of pyx_findspan, bspline_active_deriv_single, _bspline_single_ev_single, collocation index arithmetic into Gallina over Qc (coq/lib/Bsp.v)',
         'float tie: |impl - exact model| <= 8(p+1) 2^k eps p!/(p-k)!/h^k (h = width of the span containing u); spans and column indices exactly',
